@@ -102,6 +102,20 @@ CHECKS = {
         "deterministic simulation: defect injection into the problem statement, ordering oracle on the recorded file-system event log",
         "DESIGN.md 4/C19", 600, 7200,
     ),
+    "C14": (
+        "exploration",
+        "Durability of what simulated runs produce: after seeded Engine-A runs (completed or cancelled by an injected KeyboardInterrupt; terminal_psi None/0/complex; drives as dicts, closures, callable objects, Parameters, composite and time-dependent expression trees; devices with/without holes/terminals/probes; three unit systems) a seeded sequence of storage operations (reload, reload at step 0, copy to a new file, device to file with/without mesh, mesh to group plain/compressed, pickle device, pickle parameters, library equality, use the reloaded solution as a seed) is followed by a simulated restart and a deep, independent comparison with the in-memory originals: mesh arrays bitwise (1e-12 for a mesh recomputed from its triangulation), options field by field incl. None, data of every recorded step against what the writer was handed, dynamics, times, drives evaluated at seeded points/times, time_dependent flags.",
+        "Only state produced by runs is round-tripped (sampled devices/options/trees). The library's allclose-based __eq__ is not the oracle (it is itself exercised by the 'equality' operation). Saving a solution without its mesh (save_mesh=False) is not claimed to be loadable.",
+        "deterministic simulation: seeded storage-operation sequences with simulated restart, deep comparison against in-memory originals",
+        "DESIGN.md 4/C14", 900, 7200,
+    ),
+    "C16": (
+        "exploration",
+        "Solver-facing part only: the applied vector potential of seeded real runs is a random expression tree (depth <= 3; ConstantField / gauge-gradient vector parameters, LinearRamp / piecewise / sinusoidal time-dependent scalars, ints, floats; + - * / ** in both operand orders; operands shared between branches). Construction, solve() and cache clearing must not raise; composite.time_dependent == 'some leaf is'; the applied potential of every update (and the static fixed value) equals the value of an independent interpreter of the tree (1e-12 relative); every operand cache is empty after the run; the pickled and the reloaded tree compare equal, keep the flag and evaluate equal.",
+        "The algebra over all expression trees and argument shapes is an input-space statement and is not claimed. Trusted: sim/build.py eval_tree (calls the leaf functions directly, combines with operator.*).",
+        "deterministic simulation: generated drive programs executed by the real solver, per-step differential oracle against an interpreter",
+        "DESIGN.md 4/C16", 600, 7200,
+    ),
 }
 
 
